@@ -114,6 +114,56 @@ def check(model: Model, rep: Report, tier: str):
         share_rule(rep, model, l7, "C05.K8", "nesting a circuit copies it, whichever way it is handed over: add() routes every sub-circuit (a declarative circuit or a bare structure) "
                    "to the copying path add_sub_circuit before the plain-operation case, and that path nests operation.copy(..), not the object (= C02.L7); otherwise the "
                    "parent and the original share one object and a change to either shows in both")
+    with rep.isolated():
+        k10(model, rep)
+    from .c06 import u1
+    with rep.isolated():
+        share_rule(rep, model, u1, "C05.K9", "the copies a repetition appends end up with the same operation sequence as the block they were copied from: apply_modifiers_to_self "
+                   "unrolls the nested blocks of EVERY copy -- it recurses over all nodes of the graph as it is after repeat() (= C06.U1 recursion)",
+                   keep=lambda o: "recursion" in o["construct"] or "recursion" in o.get("detail", ""))
+
+
+# Reviewed sites where one operation is given the link OBJECT another operation holds (function qualname -> why it is there).
+LINK_SHARING_SITES = {
+    "CircuitCompositeOperation.decomposed_operations": "the block hands its own link to its relation-less heads while listing (C01.R7); the recorded finding C03.H2 / C05.K4 is about this site",
+}
+
+
+def k10(model: Model, rep: Report, rule: str = "C05.K10"):
+    """An operation never receives the link object of another operation, except at the reviewed hand-over."""
+    rep.rule(rule, "operations are told apart by their relation link (K4): no statement stores the link OBJECT held by one operation into another operation "
+                   "(X.relation_link = Y.relation_link), except the reviewed hand-over in decomposed_operations -- a second sharing site makes a nested block equal to its "
+                   "parent (or to a sibling) as a key of the copy lookup, and acquisitions of later siblings lose their registry (index -1)")
+    from .common import syntactic_callers
+    from ..sym import is_private_helper
+    sites = []
+    for f in model.all_functions():
+        if "structure" not in f.module.relpath and "language" not in f.module.relpath:
+            continue
+        for n in ast.walk(f.node):
+            if isinstance(n, ast.Assign) and len(n.targets) == 1 and isinstance(n.targets[0], ast.Attribute) and n.targets[0].attr in ("relation_link", "relation", "_relation") \
+                    and isinstance(n.value, ast.Attribute) and n.value.attr in ("relation_link", "relation", "_relation") \
+                    and ast.unparse(n.value.value) != ast.unparse(n.targets[0].value):
+                sites.append((f, n))
+    rep.floor(f"{rule} link hand-over sites", len(sites), 1)
+    for f, n in sites:
+        owners = [f]
+        if is_private_helper(f):
+            cs, work, seen = [], [f], set()
+            while work:
+                g = work.pop()
+                for c in syntactic_callers(model, g):
+                    if c in seen:
+                        continue
+                    seen.add(c)
+                    (work if is_private_helper(c) else cs).append(c)
+            owners = cs or [f]
+        bad = [o for o in owners if o.qualname not in LINK_SHARING_SITES]
+        rep.check(not bad, rule, f"{f.qualname}[shares a link object]", f"{f.module.relpath}:{n.lineno}", found=ast.unparse(n)[:120],
+                  required="only the reviewed hand-over shares a link object: " + ", ".join(LINK_SHARING_SITES),
+                  what=f"{(bad[0] if bad else f).qualname} gives an operation the very link object another operation holds: wherever the link is what separates two "
+                       "operations (value equality, K4) they now compare and hash equal -- e.g. the first nested block equals its parent in the copy lookup and the "
+                       "acquisitions of later blocks are re-targeted to the wrong circuit", detail="link-sharing")
 
 
 # ---------------------------------------------------------------------------------------------
@@ -401,6 +451,22 @@ def _k4(model: Model, rep: Report):
                 continue
             if (not fi.compare or eq_blind(ev, T)) and holds_container_state(T):
                 blind.append(f"{fname}: {T.name}" + ("" if fi.compare else " (compare=False)"))
+        # two operations of the same kind on the same qubits are told apart only by their relation link (which carries a per-instance identifier)
+        from .c03 import unique_identifier
+        sep = []
+        for fname, fi in K.all_fields().items():
+            if not fi.compare:
+                continue
+            T = ev.ann_class(fi.annotation, fi.owner.module)
+            if T is None:
+                continue
+            impls = [c for c in [T] + model.subclasses(T) if c.is_dataclass and not any("abstractmethod" in g.decorators for gs in c.methods.values() for g in gs if g.cls is c)]
+            if impls and all(unique_identifier(model, c)[0] or eq_kind(c) == "identity" for c in impls):
+                sep.append(fname)
+        rep.check(bool(sep), "C05.K4", f"{K.name}[separated]", K.loc, found=f"compared fields with a per-instance identifier: {sep}" if sep else "no compared field carries a per-instance identifier",
+                  required="a compared field whose value is unique per operation (the relation link)",
+                  what="two operations of the same kind on the same qubits compare and hash equal: as keys of the copy lookup the second overwrites the first, and relations "
+                       "to the first are re-pointed to the copy of the second", detail="value-eq-no-separator")
         rep.check(not blind, "C05.K4", f"{K.name}[key-identity]", K.loc, found=blind or "all structural state compared",
                   required="no uncompared structural field under value equality",
                   what="two distinct sub-circuits with different content compare and hash equal once they share a link "
